@@ -11,7 +11,7 @@ CHECKS = {
     'C02': ('explicit enumeration of numbering templates x numbering forms x sites x maxRepeat on emmet.expand vs reference unroller',
             '4.C02', 'Exhaustive over all nesting templates of repeated elements/groups up to the unit bound, 24 numbering forms at 8 sites (element, class, attribute name / value / quoted value / expression value, id, text) and all limits; a JSX pass.'),
     'C03': ('explicit enumeration of attribute-mention sequences x option lattice (<=2 deviations) x syntaxes vs reference merge; payload typing tree',
-            '4.C03', 'Exhaustive over mention sequences up to length k and option sets up to 2 deviations, also inside repeaters, on a multi-element alias and on a label that wraps a control; payload alphabet up to the unit bound.'),
+            '4.C03', 'Exhaustive over mention sequences up to length k and option sets up to 2 deviations, also inside repeaters, after a sibling that carries the other form of the same attributes, on a multi-element alias and on a label that wraps a control; boolean-attribute list explicit / default / empty; payload alphabet up to the unit bound.'),
     'C04': ('typing-tree enumeration of text payloads x host positions and of wrap-line lists x templates on emmet.expand, closed-form oracle',
             '4.C04', 'Exhaustive over payloads up to the unit bound in every host, over all line lists up to the bound and over all multi-line texts (LF / CRLF / CR next to numbering, fields and variables) up to the unit bound under html, pug and haml.'),
     'C05': ('explicit enumeration of stylesheet value sequences x option lattice x syntaxes vs reference rendering (colors compared by value)',
@@ -19,7 +19,7 @@ CHECKS = {
     'C06': ('complete enumeration of the built-in stylesheet snippet table x syntaxes x keyword/case forms x scopes x user overrides',
             '4.C06', 'The snippet table is finite and enumerated completely (names split from the raw table by the harness); user-defined snippets of several shapes through the call config, the global config and a primed cache.'),
     'C07': ('typing-tree + edit-neighbourhood enumeration of input strings x configuration list on emmet.expand with exception classifier and watchdog',
-            '4.C07', 'All strings up to the stated lengths over a class-representative alphabet under every listed configuration.'),
+            '4.C07', 'All strings up to the stated lengths over a class-representative alphabet under every listed configuration; one table session per stylesheet configuration (every built-in key with numbers and sibling keyword initials through one cache dict); failures that need the session cache are reported and reproduced by replaying the shard.'),
     'C08': ('explicit-state BFS over expand() call histories on shared caller objects with canonical-state deduplication, differential vs fresh interpreter',
             '4.C08', 'Breadth-first search over call histories from a finite operation menu (incl. self-checking sequences in which the caller edits its own objects in place), closed under state equality up to the depth bound.'),
     'C09': ('explicit enumeration of HTML document forests x every caret position vs generator ground truth',
@@ -33,13 +33,13 @@ CHECKS = {
     'C13': ('explicit enumeration of abbreviations x syntaxes x newline/indent/baseIndent product with recording callbacks, positional oracle',
             '4.C13', 'Every callback invocation of every explored run is checked against the final string.'),
     'C14': ('complete enumeration of built-in markup snippet tables x contexts (alias vs definition) + all user tables over a small name/definition menu with frame-depth probe',
-            '4.C14', 'Built-in tables enumerated completely (every name of every raw key); user tables (cyclic included) exhaustively over the menu, with context independence and an in-place edit of the table.'),
+            '4.C14', 'Built-in tables enumerated completely (every name of every raw key); user tables (cyclic included) exhaustively over the menu, with context independence and an in-place edit of the table; malformed definitions behind another alias; the same alias twice (bare / attributed).'),
     'C15': ('explicit enumeration of abbreviations x haml/pug/slim x indent strings vs reference tree and HTML-output tree',
             '4.C15', 'Exhaustive over derivations up to the element bound; multi-line text in all three line-break spellings; the calls of a shard share one cache dict.'),
     'C16': ('typing-tree + edit-neighbourhood enumeration of source strings x every position (incl. out of range) on all scanner/matcher entry points, range well-formedness oracle',
             '4.C16', 'All strings up to the length bound over the HTML/CSS punctuation alphabets, all positions -1..len+1.'),
     'C17': ('explicit enumeration of HTML/CSS document forests x every position on the action helpers vs generator ground truth',
-            '4.C17', 'Same generators as C09/C10, extended attribute/declaration menus.'),
+            '4.C17', 'Same generators as C09/C10, extended attribute/declaration menus; select_item_html with its options argument; every stylesheet again with a stray closing brace before its last top-level rule; a weak oracle for sections that contain value-less statements.'),
     'C18': ('typing-tree + edit-neighbourhood enumeration of strings on both tokenizers, tiling invariant',
             '4.C18', 'All strings up to the length bound over both alphabets, both stylesheet modes.'),
     'C19': ('typing-tree enumeration of expression token/character strings on evaluate()/extract() vs AST + exact-rational reference',
